@@ -1,2 +1,338 @@
-(* Proofs/StreamProofs.v *)
+(* Proofs/StreamProofs.v — generic lemmas about failing writers ([limit_write])
+   and CR LF line terminators ([crlf]), and the failing-writer facts of the
+   five Write methods (C07, second half). *)
+From Coq Require Import String.
 From Bio Require Import Base.
+From Bio.Model Require Fasta Fastq Sam Bed Newick.
+From Bio.Model Require Import Stream.
+From Bio.Spec Require FastaSpec FastqSpec SamSpec BedSpec NewickSpec.
+From Bio.Proofs Require FastaProofs FastqProofs BedProofsC.
+Open Scope N_scope.
+
+(* ================================================================== *)
+(* limit_write                                                          *)
+
+(* The writer that accepts k bytes: what reaches it is always the first k
+   bytes of the whole output; the Write method succeeds iff everything fits. *)
+Lemma limit_write_spec cs : forall k,
+  snd (limit_write k cs) = firstn k (concat cs)
+  /\ ((length (concat cs) <= k)%nat -> fst (limit_write k cs) = Ok tt)
+  /\ ((k < length (concat cs))%nat -> fst (limit_write k cs) = Err).
+Proof.
+  induction cs as [|c r IH]; intro k.
+  - cbn [limit_write concat fst snd length]. rewrite firstn_nil.
+    split; [reflexivity|]. split; [reflexivity|]. intro H. inversion H.
+  - cbn [limit_write concat]. rewrite app_length.
+    destruct (Nat.leb_spec (length c) k) as [Hle|Hlt].
+    + specialize (IH (k - length c)%nat).
+      destruct (limit_write (k - length c) r) as [o out]. cbn [fst snd] in *.
+      destruct IH as (E & Hok & Herr). split; [|split].
+      * rewrite E, firstn_app, (firstn_all2 c) by lia. reflexivity.
+      * intro H. apply Hok. lia.
+      * intro H. apply Herr. lia.
+    + cbn [fst snd]. split; [|split].
+      * rewrite firstn_app. replace (k - length c)%nat with 0%nat by lia.
+        rewrite firstn_O, app_nil_r. reflexivity.
+      * intro H. lia.
+      * reflexivity.
+Qed.
+
+Lemma limit_write_emitted k cs : snd (limit_write k cs) = firstn k (concat cs).
+Proof. apply limit_write_spec. Qed.
+
+Lemma limit_write_ok k cs : (length (concat cs) <= k)%nat -> fst (limit_write k cs) = Ok tt.
+Proof. apply limit_write_spec. Qed.
+
+Lemma limit_write_err k cs : (k < length (concat cs))%nat -> fst (limit_write k cs) = Err.
+Proof. apply limit_write_spec. Qed.
+
+(* ================================================================== *)
+(* the five Write methods                                               *)
+
+(* FASTA: MarshalText = Write into a buffer (FastaProofs.marshal_total) *)
+Lemma fasta_marshal_concat r m : Fasta.marshal_text r = Ok m -> m = concat (Fasta.write_calls r).
+Proof. rewrite FastaProofs.marshal_total. intro H. injection H as <-. reflexivity. Qed.
+
+Lemma write_fault_fasta k r m : Fasta.marshal_text r = Ok m ->
+  (k < length m)%nat -> fst (write_to_fasta k r) = Err.
+Proof. intros H Hk. apply fasta_marshal_concat in H. subst m. now apply limit_write_err. Qed.
+
+Lemma write_ok_fasta k r m : Fasta.marshal_text r = Ok m ->
+  (length m <= k)%nat -> fst (write_to_fasta k r) = Ok tt.
+Proof. intros H Hk. apply fasta_marshal_concat in H. subst m. now apply limit_write_ok. Qed.
+
+Lemma write_emitted_fasta k r m : Fasta.marshal_text r = Ok m ->
+  snd (write_to_fasta k r) = firstn k m.
+Proof. intros H. apply fasta_marshal_concat in H. subst m. apply limit_write_emitted. Qed.
+
+(* FASTQ *)
+Lemma fastq_marshal_concat r m : Fastq.marshal_text r = Ok m -> m = concat (Fastq.write_calls r).
+Proof.
+  rewrite FastqProofs.marshal_total. intro H. injection H as <-.
+  symmetry. apply FastqProofs.write_calls_single.
+Qed.
+
+Lemma write_fault_fastq k r m : Fastq.marshal_text r = Ok m ->
+  (k < length m)%nat -> fst (write_to_fastq k r) = Err.
+Proof. intros H Hk. apply fastq_marshal_concat in H. subst m. now apply limit_write_err. Qed.
+
+Lemma write_ok_fastq k r m : Fastq.marshal_text r = Ok m ->
+  (length m <= k)%nat -> fst (write_to_fastq k r) = Ok tt.
+Proof. intros H Hk. apply fastq_marshal_concat in H. subst m. now apply limit_write_ok. Qed.
+
+Lemma write_emitted_fastq k r m : Fastq.marshal_text r = Ok m ->
+  snd (write_to_fastq k r) = firstn k m.
+Proof. intros H. apply fastq_marshal_concat in H. subst m. apply limit_write_emitted. Qed.
+
+(* SAM: marshal_text o r = Ok (concat (write_calls o r)) by definition *)
+Lemma sam_marshal_concat o r m : Sam.marshal_text o r = Ok m -> m = concat (Sam.write_calls o r).
+Proof. unfold Sam.marshal_text, Sam.write. intro H. injection H as <-. reflexivity. Qed.
+
+Lemma write_fault_sam o k r m : Sam.marshal_text o r = Ok m ->
+  (k < length m)%nat -> fst (write_to_sam o k r) = Err.
+Proof. intros H Hk. apply sam_marshal_concat in H. subst m. now apply limit_write_err. Qed.
+
+Lemma write_ok_sam o k r m : Sam.marshal_text o r = Ok m ->
+  (length m <= k)%nat -> fst (write_to_sam o k r) = Ok tt.
+Proof. intros H Hk. apply sam_marshal_concat in H. subst m. now apply limit_write_ok. Qed.
+
+Lemma write_emitted_sam o k r m : Sam.marshal_text o r = Ok m ->
+  snd (write_to_sam o k r) = firstn k m.
+Proof. intros H. apply sam_marshal_concat in H. subst m. apply limit_write_emitted. Qed.
+
+(* BED: [Bed.write] is MarshalText; it fails exactly for N outside 3..12 *)
+Lemma bed_marshal_concat b m : Bed.write b = Ok m ->
+  exists cs, Bed.write_calls b = Ok cs /\ m = concat cs.
+Proof.
+  unfold Bed.write. destruct (Bed.write_calls b) as [cs| |]; intro H; try discriminate.
+  injection H as <-. now exists cs.
+Qed.
+
+Lemma write_fault_bed k b m : Bed.write b = Ok m ->
+  (k < length m)%nat -> fst (write_to_bed k b) = Err.
+Proof.
+  intros H Hk. apply bed_marshal_concat in H as [cs [E ->]].
+  unfold write_to_bed. rewrite E. now apply limit_write_err.
+Qed.
+
+Lemma write_ok_bed k b m : Bed.write b = Ok m ->
+  (length m <= k)%nat -> fst (write_to_bed k b) = Ok tt.
+Proof.
+  intros H Hk. apply bed_marshal_concat in H as [cs [E ->]].
+  unfold write_to_bed. rewrite E. now apply limit_write_ok.
+Qed.
+
+Lemma write_emitted_bed k b m : Bed.write b = Ok m ->
+  snd (write_to_bed k b) = firstn k m.
+Proof.
+  intros H. apply bed_marshal_concat in H as [cs [E ->]].
+  unfold write_to_bed. rewrite E. apply limit_write_emitted.
+Qed.
+
+Lemma write_in_range_bed b : (3 <= Bed.b_n b <= 12)%Z -> exists m, Bed.write b = Ok m.
+Proof.
+  intro H. destruct (BedProofsC.write_accepts b H) as [cs [_ E]]. now exists (concat cs).
+Qed.
+
+Lemma write_refused_bed k b : (Bed.b_n b < 3 \/ Bed.b_n b > 12)%Z ->
+  write_to_bed k b = (Err, []).
+Proof.
+  intro H. destruct (BedProofsC.write_refuses b H) as [E _].
+  unfold write_to_bed. now rewrite E.
+Qed.
+
+(* Newick: Write hands MarshalText's bytes to the writer in one call *)
+Lemma newick_chunks_concat o t : concat (Newick.write_chunks o t) = Newick.marshal o t.
+Proof. unfold Newick.write_chunks. cbn [concat]. apply app_nil_r. Qed.
+
+Lemma write_fault_newick o k t :
+  (k < length (Newick.marshal o t))%nat -> fst (write_to_newick o k t) = Err.
+Proof. intro Hk. apply limit_write_err. now rewrite newick_chunks_concat. Qed.
+
+Lemma write_ok_newick o k t :
+  (length (Newick.marshal o t) <= k)%nat -> fst (write_to_newick o k t) = Ok tt.
+Proof. intro Hk. apply limit_write_ok. now rewrite newick_chunks_concat. Qed.
+
+Lemma write_emitted_newick o k t :
+  snd (write_to_newick o k t) = firstn k (Newick.marshal o t).
+Proof. unfold write_to_newick. now rewrite limit_write_emitted, newick_chunks_concat. Qed.
+
+(* ================================================================== *)
+(* crlf                                                                 *)
+
+Lemma crlf_app a b : crlf (a ++ b) = crlf a ++ crlf b.
+Proof.
+  induction a as [|c a IH]; [reflexivity|].
+  cbn [app crlf]. rewrite IH. destruct (c =? LF); reflexivity.
+Qed.
+
+Lemma crlf_concat l : crlf (concat l) = concat (map crlf l).
+Proof.
+  induction l as [|x l IH]; [reflexivity|]. cbn [concat map]. now rewrite crlf_app, IH.
+Qed.
+
+Lemma crlf_nolf s : ~ In LF s -> crlf s = s.
+Proof.
+  induction s as [|c s IH]; intro H; [reflexivity|].
+  cbn [crlf]. destruct (N.eqb_spec c LF) as [->|_].
+  - exfalso. apply H. now left.
+  - rewrite IH; [reflexivity|]. intro Hin. apply H. now right.
+Qed.
+
+Lemma crlf_lf : crlf [LF] = [CR; LF].
+Proof. reflexivity. Qed.
+
+(* the pieces between LFs: every piece but the last gets a CR appended *)
+Fixpoint add_cr (ps : list bytes) : list bytes :=
+  match ps with
+  | [] => []
+  | [p] => [p]
+  | p :: r => (p ++ [CR]) :: add_cr r
+  end.
+
+Lemma add_cr_cons p q r : add_cr (p :: q :: r) = (p ++ [CR]) :: add_cr (q :: r).
+Proof. reflexivity. Qed.
+
+Lemma add_cr_nonnil ps : ps <> [] -> add_cr ps <> [].
+Proof. destruct ps as [|p [|q r]]; intro H; [congruence | discriminate | discriminate]. Qed.
+
+Lemma split_on_nonnil' sep s : split_on sep s <> [].
+Proof.
+  induction s as [|c r IH]; cbn [split_on]; [discriminate|].
+  destruct (c =? sep); [discriminate|]. destruct (split_on sep r); [contradiction | discriminate].
+Qed.
+
+Lemma split_crlf s : split_on LF (crlf s) = add_cr (split_on LF s).
+Proof.
+  induction s as [|c r IH]; [reflexivity|].
+  cbn [crlf]. destruct (N.eqb_spec c LF) as [->|Hne].
+  - (* LF: CR LF crlf r *)
+    change (split_on LF (CR :: LF :: crlf r)) with
+      (match split_on LF (LF :: crlf r) with [] => [[CR]] | f :: fs => (CR :: f) :: fs end).
+    change (split_on LF (LF :: crlf r)) with ([] :: split_on LF (crlf r)).
+    change (split_on LF (LF :: r)) with ([] :: split_on LF r).
+    rewrite IH.
+    destruct (split_on LF r) as [|q rest] eqn:E; [exfalso; exact (split_on_nonnil' LF r E)|].
+    rewrite add_cr_cons. reflexivity.
+  - cbn [split_on]. apply N.eqb_neq in Hne. rewrite Hne, IH.
+    destruct (split_on LF r) as [|q rest] eqn:E; [exfalso; exact (split_on_nonnil' LF r E)|].
+    destruct rest as [|q' rest'].
+    + reflexivity.
+    + rewrite !add_cr_cons. reflexivity.
+Qed.
+
+Lemma removelast_add_cr ps : removelast (add_cr ps) = map (fun l => l ++ [CR]) (removelast ps).
+Proof.
+  induction ps as [|p r IH]; [reflexivity|].
+  destruct r as [|q r']; [reflexivity|].
+  rewrite add_cr_cons.
+  change (removelast (p :: q :: r')) with (p :: removelast (q :: r')).
+  cbn [map]. rewrite <- IH.
+  destruct (add_cr (q :: r')) as [|x y] eqn:E.
+  - exfalso. revert E. apply add_cr_nonnil. discriminate.
+  - reflexivity.
+Qed.
+
+Lemma last_add_cr ps : last (add_cr ps) [] = last ps [].
+Proof.
+  induction ps as [|p r IH]; [reflexivity|].
+  destruct r as [|q r']; [reflexivity|].
+  rewrite add_cr_cons.
+  change (last (p :: q :: r') []) with (last (q :: r') []). rewrite <- IH.
+  destruct (add_cr (q :: r')) as [|x y] eqn:E.
+  - exfalso. revert E. apply add_cr_nonnil. discriminate.
+  - reflexivity.
+Qed.
+
+(* ReadString('\n') on the CRLF text: the same lines, each with a trailing CR;
+   the unterminated tail is unchanged *)
+Lemma rs_lines_crlf s :
+  rs_lines (crlf s) = (map (fun l => l ++ [CR]) (fst (rs_lines s)), snd (rs_lines s)).
+Proof.
+  unfold rs_lines. cbn [fst snd]. now rewrite split_crlf, removelast_add_cr, last_add_cr.
+Qed.
+
+Lemma drop_cr_snoc s : drop_cr (s ++ [CR]) = s.
+Proof.
+  induction s as [|c r IH]; [reflexivity|].
+  destruct r as [|c' r'].
+  - reflexivity.
+  - change (drop_cr ((c :: c' :: r') ++ [CR])) with (c :: drop_cr ((c' :: r') ++ [CR])).
+    now rewrite IH.
+Qed.
+
+Lemma drop_cr_nocr s : ~ In CR s -> drop_cr s = s.
+Proof.
+  induction s as [|c r IH]; intro H; [reflexivity|].
+  destruct r as [|c' r'].
+  - cbn [drop_cr]. destruct (N.eqb_spec c 13) as [->|_]; [|reflexivity].
+    exfalso. apply H. now left.
+  - change (drop_cr (c :: c' :: r')) with (c :: drop_cr (c' :: r')).
+    rewrite IH; [reflexivity|]. intro Hin. apply H. now right.
+Qed.
+
+(* bytes of a piece are bytes of the text *)
+Lemma split_on_in sep x : forall s p, In p (split_on sep s) -> In x p -> In x s.
+Proof.
+  induction s as [|c r IH]; intros p Hp Hx.
+  - cbn in Hp. destruct Hp as [<-|[]]. exact Hx.
+  - cbn [split_on] in Hp. destruct (c =? sep).
+    + destruct Hp as [<-|Hp]; [destruct Hx|]. right. exact (IH p Hp Hx).
+    + destruct (split_on sep r) as [|f fs] eqn:E.
+      * destruct Hp as [<-|[]]. destruct Hx as [<-|[]]. now left.
+      * destruct Hp as [<-|Hp].
+        -- destruct Hx as [<-|Hx]; [now left|]. right. apply (IH f); [now left | exact Hx].
+        -- right. apply (IH p); [now right | exact Hx].
+Qed.
+
+Lemma pieces_nocr s : ~ In CR s -> Forall (fun p => ~ In CR p) (split_on LF s).
+Proof.
+  intro H. apply Forall_forall. intros p Hp Hx. apply H. exact (split_on_in LF CR s p Hp Hx).
+Qed.
+
+Lemma lines_tail_add_cr ps : Forall (fun p => ~ In CR p) ps ->
+  map drop_cr (lines_tail (add_cr ps)) = map drop_cr (lines_tail ps).
+Proof.
+  induction 1 as [|p r Hp Hr IH]; [reflexivity|].
+  destruct r as [|q r']; [reflexivity|].
+  rewrite add_cr_cons.
+  assert (E1 : lines_tail (p :: q :: r') = p :: lines_tail (q :: r')) by reflexivity.
+  assert (E2 : forall a l, l <> [] -> lines_tail (a :: l) = a :: lines_tail l).
+  { intros a [|b l] Hl; [congruence | reflexivity]. }
+  rewrite E1, E2 by (apply add_cr_nonnil; discriminate).
+  cbn [map]. rewrite drop_cr_snoc, (drop_cr_nocr p Hp). f_equal. exact IH.
+Qed.
+
+(* bufio.Scanner + ScanLines: a text without CR gives the same tokens with
+   LF or CR LF line terminators *)
+Lemma scan_tokens_crlf s : ~ In CR s -> scan_tokens (crlf s) = scan_tokens s.
+Proof.
+  intro H. unfold scan_tokens. rewrite split_crlf. apply lines_tail_add_cr. now apply pieces_nocr.
+Qed.
+
+Lemma rs_lines_nocr s : ~ In CR s ->
+  Forall (fun p => ~ In CR p) (fst (rs_lines s)) /\ ~ In CR (snd (rs_lines s)).
+Proof.
+  intro H. unfold rs_lines. cbn [fst snd]. pose proof (pieces_nocr s H) as HF.
+  pose proof (split_on_nonnil' LF s) as Hnn.
+  destruct (@exists_last _ (split_on LF s) Hnn) as [ini [lst E]]. rewrite E in *.
+  rewrite removelast_last, last_last. apply Forall_app in HF as [A B]. split; [exact A|].
+  now inversion B.
+Qed.
+
+(* not_in / app / concat helpers used by the format files *)
+Lemma not_in_app {A} (x : A) a b : ~ In x a -> ~ In x b -> ~ In x (a ++ b).
+Proof. intros Ha Hb Hin. apply in_app_or in Hin as [H|H]; auto. Qed.
+
+Lemma not_in_concat {A} (x : A) l : Forall (fun s => ~ In x s) l -> ~ In x (concat l).
+Proof.
+  induction 1 as [|s l Hs _ IH]; [intros []|]. cbn [concat]. now apply not_in_app.
+Qed.
+
+Lemma clean_not_in bad s x : clean bad s -> In x bad -> ~ In x s.
+Proof.
+  intros H Hx Hin. unfold clean in H. rewrite Forall_forall in H. specialize (H x Hin).
+  unfold memb in H.
+  assert (T : existsb (N.eqb x) bad = true) by (apply existsb_exists; exists x; split; [exact Hx | apply N.eqb_refl]).
+  congruence.
+Qed.
